@@ -102,6 +102,8 @@ pub fn prof_c07(t: Tier) -> Profile {
     p.read_in_fn = true;
     p.subscriptions = true;
     p.observer_churn = 2;
+    // writes from inside node functions must not show in the running stabilise either
+    p.writers = true;
     sized(p, t)
 }
 pub fn prof_c08(t: Tier) -> Profile {
@@ -163,13 +165,27 @@ fn run_c06(b: &[u8], t: Tier) -> Outcome {
     let nt = r.classes.rounds_with_both > 0;
     outcome(r, nt)
 }
+/// A wrong observer value in a world of pure functions and equality cutoffs means the observers
+/// do not reflect the variable assignment current at the stabilise call: that is also what C07
+/// ("one snapshot") and C08 ("seen by the graph at the next stabilise") state.
+fn also_as(r: &mut CaseResult, prop: &'static str, clause: &'static str) {
+    let extra: Vec<crate::model::Failure> = r
+        .failures
+        .iter()
+        .filter(|f| f.prop == "C01" && f.clause == "value")
+        .map(|f| crate::model::Failure { prop, clause, msg: format!("[C01 value] {}", f.msg) })
+        .collect();
+    r.failures.extend(extra);
+}
 fn run_c07(b: &[u8], t: Tier) -> Outcome {
-    let r = run_case(&prof_c07(t), b, None);
+    let mut r = run_case(&prof_c07(t), b, None);
+    also_as(&mut r, "C07", "not-the-snapshot-at-the-call");
     let nt = r.classes.reads_between > 0 && r.classes.value_changed_reads > 0;
     outcome(r, nt)
 }
 fn run_c08(b: &[u8], t: Tier) -> Outcome {
-    let r = run_case(&prof_c08(t), b, None);
+    let mut r = run_case(&prof_c08(t), b, None);
+    also_as(&mut r, "C08", "write-not-what-the-graph-sees");
     let nt = r.classes.deferred_writes >= 2;
     outcome(r, nt)
 }
